@@ -24,7 +24,7 @@ MODELLED = ("C99 %d semantics (flags -+#0 space, width, precision, non-negative 
             "left-to-right scanners (for this pattern greedy choices never need to be given back); the re module, "
             "libc and CPython themselves are trusted.  Templates: ASCII only; '%%', a bare '.' precision, length "
             "modifiers and '*' are outside the grammar.")
-RULE = ("exhaustive: all 32 flag subsets x width in {none,1..12} x precision in {none,0..12} (quick: a 7x9 sub-grid; every "
+RULE = ("exhaustive: all 32 flag subsets x width in {none,1..12} x precision in {none,0..12} (quick: a 6x7 sub-grid; every "
         "pair incl. precision < width for the correspondence, oracle only on the property's domain) x indices "
         "{0,1,7,10,99,12345,10^9} through TIFFConsolidator; flag strings with repeats/other orders, precision with leading "
         "zeros, %s placement (0..3 occurrences), file names; the same grid against libc; all format specs "
@@ -68,8 +68,8 @@ def cases(rng, tier):
     out = []
     subsets = ["".join(c for c, b in zip(FLAGCH, bits) if b) for bits in itertools.product([0, 1], repeat=5)]
     if tier == "quick":
-        widths = [None, 1, 2, 5, 6, 10, 12]
-        precs = [None, 0, 1, 2, 5, 6, 10, 11, 12]
+        widths = [None, 1, 2, 6, 10, 12]
+        precs = [None, 0, 1, 2, 6, 10, 12]
     else:
         widths = [None] + list(range(1, 13))
         precs = [None] + list(range(0, 13))
@@ -104,7 +104,7 @@ def cases(rng, tier):
             for sign in (None, "+", "-", " "):
                 for alt in ("", "#"):
                     for zero in ("", "0"):
-                        for w in ("", "0", "1", "3", "6", "10"):
+                        for w in (("", "0", "3", "10") if tier == "quick" else ("", "0", "1", "3", "6", "10")):
                             spec = (fill or "") + (align or "") + (sign or "") + alt + zero + w + "d"
                             out.append({"kind": "py", "spec": spec, "ns": [0, 7, 12345]})
     for spec in ["", "d", "5", "05", ".3d", "5.2d", "5.d", ".d", "zd", "_d", ",d", "05,d", "x", "s", "c", "n", "e", "%", "q", "dd", "5dd",
@@ -181,6 +181,7 @@ def _err(e):
     return {"err": type(e).__name__}
 
 
+EXTS = {"tiff": {".tif", ".tiff"}, "jpeg": {".jpeg", ".jpg"}}
 MIME = {"tiff": "multipart/related;type=image/tiff", "jpeg": "multipart/related;type=image/jpeg"}
 
 
@@ -279,9 +280,9 @@ def cres(o):
 def coq_term(case, obs):
     k = case["kind"]
     if k == "c":
-        return "forallb (fun b => b) " + cl(
-            ["str_beq (c_printf_d %s %s %s %d%%N) %s" % (cflags(case["flags"]), copt(case["width"]), copt(case["prec"]), n, cs(o))
-             for n, o in zip(case["ns"], obs["outs"])])
+        return "let g := c_printf_d %s %s %s in forallb (fun b => b) %s" % (
+            cflags(case["flags"]), copt(case["width"]), copt(case["prec"]),
+            cl(["str_beq (g %d%%N) %s" % (n, cs(o)) for n, o in zip(case["ns"], obs["outs"])]))
     if k == "py":
         # CPython always answers (string or ValueError); the model may say PUnmodelled only for specs using z, grouping
         # or a presentation type other than d -- recomputed here from the text so the escape hatch cannot widen
@@ -290,34 +291,33 @@ def coq_term(case, obs):
         allowed_unmodelled = any(c in body for c in "z,_") or (sp[-1:] in tuple("bcoxXneEfFgG%") and sp[-1:] != "")
         parts = []
         for n, o in zip(case["ns"], obs["outs"]):
-            r = "py_format_d %s %d%%N" % (cs(sp), n)
+            r = "g %d%%N" % n
             if allowed_unmodelled:
                 parts.append("(is_unmodelled (%s) || pyres_beq (%s) (%s))" % (r, r, cres(o)))
             else:
                 parts.append("pyres_beq (%s) (%s)" % (r, cres(o)))
-        return "forallb (fun b => b) " + cl(parts)
+        return "let g := py_format_d %s in forallb (fun b => b) %s" % (cs(sp), cl(parts))
     if "init" in obs:
         return "false"      # the constructor never fails on these inputs in the unchanged code
     if k == "segs":
-        t = "(render %s)" % cl([cseg(x) for x in case["segs"]])
-        f = cs(case["filename"] or "")
-        parts = ["str_beq %s %s" % (t, cs(render_segs(case["segs"]))),
-                 "str_beq (expand_template %s %s) %s" % (t, f, cs(obs["template"]))]
         cv = [x[1] for x in case["segs"] if x[0] == "conv"][0]
+        parts = ["str_beq t %s" % cs(render_segs(case["segs"])),
+                 "str_beq (expand_template t f) %s" % cs(obs["template"]),
+                 "Bool.eqb (in_domainb c) %s" % ("true" if _in_domain(cv) else "false")]
         for n, o in zip(case["ns"], obs["names"]):
-            parts.append("pyres_beq (get_datum_name %s %s %s %d%%N) (%s)" % (_exts(case), t, f, n, cres(o)))
-            parts.append("Bool.eqb (finding_C37_e %s %d%%N) %s" % (cconv(cv), n, "true" if _in_class_e(cv, n) else "false"))
-        parts.append("Bool.eqb (in_domainb %s) %s" % (cconv(cv), "true" if _in_domain(cv) else "false"))
-        return "forallb (fun b => b) " + cl(parts)
-    t, f = cs(case["template"]), cs(case["filename"] or "")
-    parts = ["str_beq (expand_template %s %s) %s" % (t, f, cs(obs["template"]))]
+            parts.append("pyres_beq (get_datum_name %s t f %d%%N) (%s)" % (_exts(case), n, cres(o)))
+            parts.append("Bool.eqb (finding_C37_e c %d%%N) %s" % (n, "true" if _in_class_e(cv, n) else "false"))
+        segs = cl(["Conv c" if x[0] == "conv" else cseg(x) for x in case["segs"]])
+        return "let c := %s in let t := render %s in let f := %s in forallb (fun b => b) %s" % (
+            cconv(cv), segs, cs(case["filename"] or ""), cl(parts))
+    parts = ["str_beq (expand_template t f) %s" % cs(obs["template"])]
     for n, o in zip(case["ns"], obs["names"]):
-        r = "get_datum_name %s %s %s %d%%N" % (_exts(case), t, f, n)
+        r = "get_datum_name %s t f %d%%N" % (_exts(case), n)
         if case.get("modelled"):
             parts.append("pyres_beq (%s) (%s)" % (r, cres(o)))
         else:
             parts.append("(is_unmodelled (%s) || pyres_beq (%s) (%s))" % (r, r, cres(o)))
-    return "forallb (fun b => b) " + cl(parts)
+    return "let t := %s in let f := %s in forallb (fun b => b) %s" % (cs(case["template"]), cs(case["filename"] or ""), cl(parts))
 
 
 # ------------------------------------------------------------------------------------------ property (impl side)
@@ -354,6 +354,9 @@ def _first_failure(case, obs):
     cv = [x[1] for x in case["segs"] if x[0] == "conv"][0]
     if not _in_domain(cv) or not _plain(case["filename"] or "") or not all(_plain(x[1]) for x in case["segs"] if x[0] == "lit"):
         return None
+    import os.path
+    if os.path.splitext(obs["template"])[1] not in EXTS[case.get("fmt", "tiff")]:
+        return None         # get_datum_uri's assert on the extension: a hypothesis of the theorem (ext_ok)
     for n, o in zip(case["ns"], obs["names"]):
         exp = _expected(case, n)
         got = o.get("ok")
@@ -373,6 +376,8 @@ def finding(case, obs):
         return None
     cv = [x[1] for x in case["segs"] if x[0] == "conv"][0]
     # every failing index of the case must lie in the class, otherwise it is a different violation
+    if _first_failure(case, obs) is None:
+        return None
     bad = [n for n, o in zip(case["ns"], obs["names"]) if o.get("ok") != _expected(case, n)]
     if bad and all(_in_class_e(cv, n) for n in bad):
         return "e"
